@@ -458,6 +458,21 @@ std::vector<K> gen_keys(TapeReader &t, const GenOpts &o, KeyMeta &meta) {
             left -= c;
         }
         cnt[pr.below(d)] += left;
+        // no run reaches 2^24 elements: a run and its guard point make a segment spanning the whole run, and C01's quantifier stops where a
+        // single segment spans 2^24 positions (float slopes cannot hold such a slope exactly).  What this class is for - positions and
+        // intercepts above 2^24 - does not need longer runs.  The surplus is spread over the other keys.
+        {
+            const size_t cap = (size_t(1) << 24) - 4096;
+            size_t surplus = 0;
+            for (auto &c: cnt)
+                if (c > cap) surplus += c - cap, c = cap;
+            for (size_t i = 0; surplus > 0 && i < d; ++i) {
+                size_t room = cap - cnt[i], add = std::min(room, surplus);
+                cnt[i] += add;
+                surplus -= add;
+            }
+            n -= surplus; // d == 1: the array simply stays below 2^24
+        }
         std::vector<K> keys;
         keys.reserve(n);
         for (size_t i = 0; i < d; ++i) {
@@ -978,6 +993,13 @@ std::vector<K> gen_queries(const std::vector<K> &keys, const KeyMeta &meta, size
         }
     }
 
+    // a replay file names the query its case failed on (the sampled queries of a large array depend on the query seed, which an explicit
+    // key list does not reproduce)
+    if (const std::string *xq = replay_xquery()) {
+        if constexpr (std::is_floating_point_v<K>) add_fp(strtold(xq->c_str(), nullptr));
+        else if constexpr (std::is_signed_v<K>) add_int((i128) strtoll(xq->c_str(), nullptr, 10));
+        else add_int((i128) strtoull(xq->c_str(), nullptr, 10));
+    }
     std::vector<size_t> idx;
     if (n <= 4096) {
         idx.resize(n);
